@@ -385,7 +385,7 @@ ADDENDA2 = {
 ADDENDA3 = {
     "C04": " Round 13 (bounded): instances already connected (signal, bit, port reference, bundle member) made arrays with `*`, then connected again in five ways.",
     "C09": " Round 13 (bounded): unequal parameter values with equal hashes; sweeps over an uncached generator with every result dropped at once.",
-    "C17": " Round 13 (bounded): include / library paths with `..` components; class attributes with leading underscores go by the name they are assigned to.",
+    "C17": " Round 13 (bounded): include / library paths with `..` components; class attributes with leading underscores go by the name they are assigned to. export_include / export_lib under contract (path text and section unchanged).",
     "C06": " Round 12: the port loop of export_external_module and the signal / port / instance loops of export_module proved per iteration (one record per element, appended last; iteration sources compared as source text).",
     "C11": " Round 12: import_port_dir, import_prefix (never refuse a table entry; the member of the same name) and import_parameter_value (per variant the value the record carries), import_prefixed (what the trusted Prefixed constructor is handed) and import_primitive_params (pulse renaming inverted, missing ones None) proved; the direction and prefix round trips are lemmas over the export-side and import-side contracts.",
     "C12": " Round 12: the static audit also takes loops over expressions that are sets by their syntax (set displays, set()/frozenset(), set algebra on .keys()/.items() views).",
